@@ -180,7 +180,13 @@ fn fn_headers(text: &str) -> Vec<FnHdr> {
         }
         let mut k = pe + 1;
         let mut ret = String::new();
-        while k < cs.len() && cs[k] != '{' && cs[k] != ';' {
+        let mut rdepth = 0i32;
+        while k < cs.len() && !((cs[k] == '{' || cs[k] == ';') && rdepth == 0) {
+            match cs[k] {
+                '[' | '(' => rdepth += 1,
+                ']' | ')' => rdepth -= 1,
+                _ => {}
+            }
             ret.push(cs[k]);
             k += 1;
         }
@@ -252,6 +258,54 @@ fn field_by_type(fields: &[(String, String)], needle: &str, default: &str) -> St
     } else {
         default.to_string()
     }
+}
+
+/// keep the `//@if FLAG` or the `//@else` part of every conditional block of a snippet
+fn select_blocks(snippet: &str, flags: &[(&str, bool)]) -> String {
+    let mut out = String::new();
+    let mut keep = true;
+    let mut in_block = false;
+    let mut cond = true;
+    for line in snippet.lines() {
+        let t = line.trim();
+        if let Some(name) = t.strip_prefix("//@if ") {
+            cond = flags.iter().find(|(n, _)| *n == name.trim()).map(|(_, v)| *v).unwrap_or(false);
+            in_block = true;
+            keep = cond;
+            continue;
+        }
+        if t == "//@else" && in_block {
+            keep = !cond;
+            continue;
+        }
+        if t == "//@end" && in_block {
+            in_block = false;
+            keep = true;
+            continue;
+        }
+        if keep {
+            out.push_str(line);
+            out.push('\n');
+        }
+    }
+    out
+}
+
+/// do the AArch64 emitters still have the bit-array interface the emitter-level accessors use?
+fn a64_bits_api(src: &Path) -> bool {
+    let gen = fs::read_to_string(src.join("injector_core/arm64_codegenerator.rs")).unwrap_or_default();
+    let utils = fs::read_to_string(src.join("injector_core/utils.rs")).unwrap_or_default();
+    let g = fn_headers(&gen);
+    let u = fn_headers(&utils);
+    let has = |hs: &[FnHdr], name: &str, params: &[&str], ret: &str| {
+        hs.iter().any(|h| h.name == name && h.params.len() == params.len() && h.params.iter().zip(params).all(|(a, b)| a == b) && h.ret == ret)
+    };
+    has(&g, "emit_movz", &["[bool;16]", "bool", "[bool;2]", "[bool;5]"], "[bool;32]")
+        && has(&g, "emit_movk", &["[bool;16]", "bool", "[bool;2]", "[bool;5]"], "[bool;32]")
+        && has(&g, "emit_br", &["[bool;5]"], "[bool;32]")
+        && has(&g, "emit_ret", &["&[bool;5]"], "[bool;32]")
+        && has(&u, "bool_array_to_u32", &["[bool;32]"], "u32")
+        && u.iter().any(|h| h.name == "u8_to_bits")
 }
 
 fn discover(src: &Path) -> Vec<(String, String)> {
@@ -332,8 +386,37 @@ fn discover(src: &Path) -> Vec<(String, String)> {
                 // `field: param` or shorthand `param` where a field of that name exists
                 let mut found: Option<String> = None;
                 for (f, _) in &fields {
-                    if body.contains(&format!("{}:{},", f, pn)) || body.contains(&format!("{}:{}}}", f, pn)) {
-                        found = Some(f.clone());
+                    // `field: <expression mentioning the parameter>` inside the constructor
+                    if let Some(pos) = body.find(&format!("{}:", f)) {
+                        let before_ok = pos == 0 || !(body.as_bytes()[pos - 1].is_ascii_alphanumeric() || body.as_bytes()[pos - 1] == b'_');
+                        let rest = &body[pos + f.len() + 1..];
+                        let mut depth = 0i32;
+                        let mut end = rest.len();
+                        for (k, ch) in rest.char_indices() {
+                            match ch {
+                                '(' | '[' | '{' => depth += 1,
+                                ')' | ']' => depth -= 1,
+                                '}' => {
+                                    if depth == 0 {
+                                        end = k;
+                                        break;
+                                    }
+                                    depth -= 1;
+                                }
+                                ',' if depth == 0 => {
+                                    end = k;
+                                    break;
+                                }
+                                _ => {}
+                            }
+                        }
+                        let init = &rest[..end];
+                        let mentions = init
+                            .split(|c: char| !(c.is_alphanumeric() || c == '_'))
+                            .any(|w| w == pn);
+                        if before_ok && mentions {
+                            found = Some(f.clone());
+                        }
                     }
                 }
                 if found.is_none() && fields.iter().any(|(f, _)| f == pn) {
@@ -402,6 +485,7 @@ fn main() {
     println!("cargo:rerun-if-env-changed=VERIF_REPO");
 
     let bindings = discover(&src);
+    let flags = [("A64_BITS_API", a64_bits_api(&src))];
     let dst = out.join("src");
     let _ = fs::remove_dir_all(&dst);
     let mut files = Vec::new();
@@ -425,7 +509,7 @@ fn main() {
         if inc.exists() {
             println!("cargo:rerun-if-changed={}", inc.display());
             text.push_str("\n// ---- [shadow] accessor snippet appended by build.rs ----\n");
-            let mut snippet = fs::read_to_string(&inc).unwrap();
+            let mut snippet = select_blocks(&fs::read_to_string(&inc).unwrap(), &flags);
             // per-file bindings first, then the crate-wide ones
             let default_patcher = match name {
                 "patch_amd64.rs" => "PatchAmd64",
